@@ -23,6 +23,10 @@ Scenarios ==
          \cup
          {[tracks |-> Sub(n), cands |-> cs, owned |-> FALSE, cls |-> cl, baked |-> b, limit |-> lim, post |-> "all"] :
             n \in 2..4, cs \in ExtC, cl \in Classes, b \in BOOLEAN, lim \in {1, 10}}
+         \cup      \* an id that is not stored is listed among the owned candidates (first / second position): the harness
+                   \* inserts it, the query is that of the stored ones
+         {[tracks |-> Sub(n), cands |-> <<BaseTracks[1], BaseTracks[2]>>, owned |-> TRUE, cls |-> 0, baked |-> FALSE, limit |-> 10, post |-> "all", absent |-> k] :
+            n \in 3..4, k \in {1, 2}}
          \cup      \* pair-wise post-processing that keeps a pair's best distance only (class 0 has tracks with two observations)
          {[tracks |-> Sub(n), cands |-> cs, owned |-> ow, cls |-> 0, baked |-> b, limit |-> 10, post |-> "best"] :
             n \in 3..4, ow \in {TRUE}, cs \in {<<BaseTracks[1], BaseTracks[2]>>}, b \in BOOLEAN}
